@@ -34,7 +34,7 @@ pub fn expand_key(key: &[u8; 128], t: usize, t1: usize) -> [u16; 64] {
     // for i = T, T+1, ..., 127 do L[i] = PITABLE[L[i-1] + L[i-T]] (addition mod 256)
     i = t;
     while i <= 127 {
-        l[i] = PITABLE[(l[i - 1] as usize + l[i - t] as usize) % 256];
+        l[i] = PITABLE[((l[i - 1] as u32 + l[i - t] as u32) & 255) as usize];
         i += 1;
     }
     // L[128-T8] = PITABLE[L[128-T8] & TM]
